@@ -42,6 +42,9 @@ def run(ctx):
     rule_a(ctx, cr)
     rule_bc(ctx, cr)
     rule_d(ctx, cr)
+    ctx.rule("C16.f", "keywords run together with identifiers are split at EVERY reserved word: "
+             "Token::scan_alphabetic repeats its search on what is left after each word")
+    rule_f(ctx, cr)
     ctx.rule("C16.e", "optional spacing: a scanner that reads one character too far and gives it "
              "back (VecDeque::push_front) restores every scanner variable it changed because of "
              "that character, so `200ELSE` yields the same number token as `200 ELSE` (shared "
@@ -154,10 +157,25 @@ def rule_a(ctx, cr):
                 if isinstance(cv, str) and len(cv) == 1 and cv.isascii() and cv.isalpha():
                     recv = f.describe(c.args[0]) if c.args else ""
                     api.setdefault((c.callee, _strip_calls(recv)), set()).add(cv)
+        # receivers that are a String built only from case-folded characters
+        folded = set()
+        pushes = {}
+        for c in f.calls_matching(r"String::push$"):
+            names = f.back_slice_calls(c.args[1])
+            isfold = any(n.endswith("to_ascii_uppercase") or n.endswith("to_ascii_lowercase")
+                         for n in names)
+            pushes.setdefault(_strip_calls(f.describe(c.args[0])), []).append(isfold)
+        for r_, flags in pushes.items():
+            if flags and all(flags):
+                folded.add(r_)
         for (callee, recv), ls in sorted(api.items(), key=str):
             for ch in sorted(ls):
                 n_letters += 1
                 meth = (callee or "").rsplit("::", 1)[-1]
+                if recv in folded:
+                    ctx.ok("C16.a", "%s/%s(%s)" % (path, meth, ch), f.span,
+                           "the string searched was built from case-folded characters only")
+                    continue
                 fam = set()
                 for (c2, r2), l2 in api.items():
                     if (c2 or "").rsplit("::", 1)[-1] == meth:
@@ -251,6 +269,29 @@ def rule_bc(ctx, cr):
               "not a reserved word, so in `GO SUB100` (no blank before the number) the scanner "
               "reads the identifier SUB100 and the line is an UNKNOWN STATEMENT, while "
               "`GO SUB 100`, `GOSUB100` and `GO TO100` all work")
+
+
+def rule_f(ctx, cr):
+    """scan_alphabetic searches the remainder again after every word it takes"""
+    f = cr.need_fn("lang::token::Token::scan_alphabetic")
+    ctx.touch(f)
+    sccs = [set(x) for x in f.sccs()]
+    finds = [g for g in cr.closures_of(f.path)
+             if any((c.callee or c.name).endswith("<impl str>::find") for c in g.calls())]
+    # where the closure that searches is applied: the iterator adaptor calls of scan_alphabetic
+    apply = [c for c in f.calls() if re.search(r"Iterator::(filter_map|map|find_map|filter|flat_map)$",
+                                                c.name)]
+    reslice = [c for c in f.calls() if c.name.endswith("ops::Index<I> for str>::index")]
+    ok = bool(finds) and bool(apply) and bool(reslice)
+    if ok:
+        ok = any(c.bb in sc and any(r.bb in sc for r in reslice) for c in apply for sc in sccs)
+    ctx.check(ok, "C16.f", "scan_alphabetic/rescans-remainder", f.span,
+              "the search over the keyword table runs inside the loop that shortens the text, so "
+              "a reserved word occurring twice in one run is split both times",
+              "the keyword table is searched once per alphabetic run instead of once per word "
+              "taken: a reserved word that occurs twice in one run (`printaandbandc`) is found "
+              "only the first time and the second copy stays inside an identifier, so the "
+              "run-together spelling means something else than the spaced one")
 
 
 def rule_d(ctx, cr):
